@@ -103,3 +103,76 @@ theorem overwriteAt_end (a b new : List Block) (hb : b.length ≤ new.length) :
   rw [h1, h2, h3]; simp
 
 end Apko.Oci
+
+namespace Apko.Oci
+
+/-! ### MultiWrite: every layer of every image ends up in the archive despite the de-duplication -/
+
+theorem writeLayers_spec (seen : List Text) (ls : List (Text × Nat)) :
+    (∀ n ∈ (writeLayers seen ls).2, n ∈ seen ∨ n ∈ (writeLayers seen ls).1.map (·.name)) ∧
+    (∀ n ∈ seen, n ∈ (writeLayers seen ls).2) ∧
+    (∀ l ∈ ls, l.1 ∈ (writeLayers seen ls).2) := by
+  induction ls generalizing seen with
+  | nil => simp [writeLayers]
+  | cons l ls ih =>
+    simp only [writeLayers]
+    split
+    · next h =>
+      obtain ⟨h1, h2, h3⟩ := ih seen
+      refine ⟨h1, h2, ?_⟩
+      intro x hx
+      rcases List.mem_cons.mp hx with rfl | hx
+      · exact h2 _ h
+      · exact h3 x hx
+    · next h =>
+      obtain ⟨h1, h2, h3⟩ := ih (l.1 :: seen)
+      refine ⟨?_, ?_, ?_⟩
+      · intro n hn
+        rcases h1 n hn with h' | h'
+        · rcases List.mem_cons.mp h' with rfl | h'
+          · right; simp
+          · left; exact h'
+        · right; simp only [List.map_cons, List.mem_cons]; right; exact h'
+      · intro n hn; exact h2 n (List.mem_cons_of_mem _ hn)
+      · intro x hx
+        rcases List.mem_cons.mp hx with rfl | hx
+        · exact h2 _ List.mem_cons_self
+        · exact h3 x hx
+
+/-- invariant of the image loop: a name already seen stays available, and the blobs of every image
+are among the names seen before or written now -/
+theorem writeImages_holds (seen : List Text) (imgs : List Img) :
+    ∀ im ∈ imgs, im.cfgName ∈ (writeImages seen imgs).map (·.name) ∧
+      ∀ l ∈ im.layers, l.1 ∈ seen ∨ l.1 ∈ (writeImages seen imgs).map (·.name) := by
+  induction imgs generalizing seen with
+  | nil => intro im h; cases h
+  | cons x rest ih =>
+    intro im him
+    obtain ⟨h1, h2, h3⟩ := writeLayers_spec seen x.layers
+    simp only [writeImages, List.map_cons, List.map_append, List.mem_cons, List.mem_append]
+    rcases List.mem_cons.mp him with rfl | him
+    · refine ⟨Or.inl (Or.inl rfl), ?_⟩
+      intro l hl
+      rcases h1 _ (h3 l hl) with h | h
+      · exact Or.inl h
+      · exact Or.inr (Or.inl (Or.inr h))
+    · obtain ⟨a, b⟩ := ih (writeLayers seen x.layers).2 im him
+      refine ⟨Or.inr a, ?_⟩
+      intro l hl
+      rcases b l hl with h | h
+      · rcases h1 _ h with h' | h'
+        · exact Or.inl h'
+        · exact Or.inr (Or.inl (Or.inr h'))
+      · exact Or.inr (Or.inr h)
+
+theorem multiWrite_holds (imgs : List Img) (msize : Nat) :
+    ∀ im ∈ imgs, Spec.HoldsImage ((multiWrite imgs msize).map (·.name)) im := by
+  intro im him
+  obtain ⟨a, b⟩ := writeImages_holds [] imgs im him
+  refine ⟨by simp [multiWrite]; exact Or.inl (by simpa using a), ?_⟩
+  intro l hl
+  rcases b l hl with h | h
+  · cases h
+  · simp only [multiWrite, List.map_append, List.mem_append]; exact Or.inl h
+
+end Apko.Oci
